@@ -72,8 +72,10 @@ DigitRun(cps) == IF cps # <<>> /\ Head(cps) \in 48..57 THEN <<Head(cps)>> \o Dig
 
 \* @extern functions: applied to the remaining input (code points);
 \* result [ok, v, n (bytes), msg]
-ExtOk(v, n)  == [ok |-> TRUE, v |-> v, n |-> n, msg |-> ""]
-ExtErr(msg)  == [ok |-> FALSE, v |-> <<>>, n |-> 0, msg |-> msg]
+ExtOk(v, n)  == [ok |-> TRUE, v |-> v, n |-> n, msg |-> "", panic |-> FALSE]
+ExtErr(msg)  == [ok |-> FALSE, v |-> <<>>, n |-> 0, msg |-> msg, panic |-> FALSE]
+\* the user's function panics: the panic unwinds through the parser to the caller of parse()
+ExtPanic     == [ok |-> FALSE, v |-> <<>>, n |-> 0, msg |-> "panic", panic |-> TRUE]
 
 ExternOracle(fn, rest) ==
   CASE fn.o = "digits" -> LET d == DigitRun(rest) IN
@@ -84,6 +86,9 @@ ExternOracle(fn, rest) ==
     [] fn.o = "fail"   -> ExtErr("always fails")
     [] fn.o = "upper"  -> IF rest # <<>> /\ rest[1] \in 65..90 THEN ExtOk(VChar(rest[1]), 1)
                           ELSE ExtErr("expected upper case letter")
+    [] fn.o = "bang"   -> IF rest # <<>> /\ rest[1] = 33 THEN ExtPanic            \* '!': the function panics
+                          ELSE LET d == DigitRun(rest) IN
+                               IF d = <<>> THEN ExtErr("expected digits") ELSE ExtOk(VStr(d), Len(d))
 
 \* @check functions on rule values
 CheckOracle(fn, v) ==
